@@ -482,6 +482,34 @@ def prologue_corpus():
     return out
 
 
+def refused_upload_then_valid_put(res, count):
+    """C12 "a valid request after an error reply is answered as in a fresh session": a complete, well-framed Put whose content does
+    not have the announced hash (or the announced length is 1 more than what the hash was taken of) is refused; the NEXT Put on the
+    same connection, valid, is committed and listed — nothing of the refused upload (bytes still in a hasher, a counter, a buffer)
+    may leak into it (seed C12-N: one hasher per connection, reset only on the success path)."""
+    good = b"the valid upload's bytes\n" * 50
+    bad = b"an upload announced with another content's hash\n" * 30
+    hg, hb_wrong = (bytes.fromhex(x) for x in blake3_hex([good, b"something else"]))
+    for nbad in (1, 2):
+        with Sandbox("C12") as sb:
+            root = sb.path("hub"); sb.write_tree(root, {"f": b"payload of f"}); os.makedirs(os.path.join(root, ".copia"), exist_ok=True)
+            stream = MAGIC + frame(req_hello())
+            for i in range(nbad):
+                stream += frame(req_put(f"bad{i}.bin", None, len(bad), hb_wrong)) + bad
+            stream += frame(req_put("good.bin", None, len(good), hg)) + good + frame(req_get("good.bin")) + frame(req_bye())
+            rc, out, err = run_server(sb, root, stream, rust_log=[None, "trace"][nbad % 2])
+            after = hub_tree(root)
+        count("stream/refused-upload-then-valid-put")
+        ot = parse_replies(out)
+        rep = {"kind": "refused-upload-then-valid-put", "refused_uploads": nbad, "rc": rc, "stderr": err[-300:], "replies": [t[:90] for t in ot[:6]]}
+        if rc != 0 or len(ot) != nbad + 3 or any(not t.startswith("error:") for t in ot[1:1 + nbad]):
+            res["violations"].append(("replies-out-of-step-after-refused-upload", f"after {nbad} Put(s) with a wrong hash the session did not answer one error each and carry on (rc {rc})", rep))
+        elif ot[1 + nbad] != f"put:1:{hg.hex()}" or not ot[2 + nbad].startswith(f"content:{len(good)}:{hg.hex()}"):
+            res["violations"].append(("valid-put-after-refused-upload-answered-differently", f"a valid Put after {nbad} refused upload(s) was answered {ot[1 + nbad][:60]} (a fresh session answers put:1:{hg.hex()[:12]}…)", rep))
+        elif after.get("good.bin") != good or any(k.startswith("bad") for k in after):
+            res["violations"].append(("tree-wrong-after-refused-upload", "after the session the tree does not hold exactly the valid Put's file", rep))
+
+
 def long_name_sessions(rng, res, count):
     """C12 "always ends, stays in step": a Put that LOSES its CAS on a path whose last component is so long that the staging name
     still fits NAME_MAX while the conflict-copy name (`.conflict-` + 12 hex, then `-1`, `-2`, …) does not — every candidate name
@@ -524,6 +552,7 @@ def run_c12(pid, tier, seed, rundir, model_run, res, count):
     rng = Rng(seed ^ 0xC12)
     fs_failure_sessions(rng, res, count)
     long_name_sessions(rng, res, count)
+    refused_upload_then_valid_put(res, count)
     n = 160 * (12 if tier == "thorough" else 1)
     dec = ReqDecoder()
     ops, impl, reps = [], [], []
@@ -640,8 +669,38 @@ def lex_resolve(path):
     return st
 
 
+def refused_put_under_write_limit(res, count):
+    """C11 "nothing is created for a refused path, the connection stays usable": a refused Put (`..`, absolute) carrying 3 MiB of
+    content, sent to a hub whose file system takes no more than 1 MiB per file (`ulimit -f`, SIGXFSZ at its default: a process that
+    tries to store the content dies). The content of a refused Put is to be read and dropped: `bad path`, then the next request
+    is served, and no file — in the tree, under `.copia`, anywhere — holds the refused bytes (seed C11-N: content staged under
+    `.copia/` BEFORE the path was examined)."""
+    body = bytes((i * 7) % 251 for i in range(3 * 1024 * 1024))
+    hb = bytes.fromhex(blake3_hex([body])[0])
+    for p in ("../evil.bin", "/tmp/evil.bin", "zz/../../evil.bin"):
+        with Sandbox("C11") as sb:
+            root = sb.path("outer", "hub")
+            os.makedirs(os.path.join(root, "zz")); open(os.path.join(root, "zz", "keep"), "wb").write(b"inside")
+            stream = MAGIC + frame(req_hello()) + frame(req_put(p, None, len(body), hb)) + body + frame(req_get("zz/keep")) + frame(req_bye())
+            rc, out, err = run_server(sb, root, stream, pre_extra="ulimit -f 1024; ", timeout=60)
+            toks = parse_replies(out)
+            files = []
+            for d_, _, fns in os.walk(sb.path("outer")):
+                for fn in fns:
+                    fp = os.path.join(d_, fn)
+                    if os.path.isfile(fp) and os.path.getsize(fp) > 100_000:
+                        files.append((os.path.relpath(fp, sb.path("outer")), os.path.getsize(fp)))
+        count("refused-put-under-write-limit")
+        rep = {"path": p, "rc": rc, "stderr": err[-300:], "replies": [t[:60] for t in toks[:4]], "large_files_left": files}
+        if rc != 0 or len(toks) != 3 or toks[1] != "error:bad_path" or not toks[2].startswith("content:6:"):
+            res["violations"].append(("connection-unusable-after-request", f"a refused Put to {p!r} with 3 MiB of content, hub limited to 1 MiB files: ended with {rc}, replies {[t[:40] for t in toks[:4]]} (expected hello, bad path, the next Get's content)", rep))
+        if files:
+            res["violations"].append(("refused-content-stored", f"the content of the refused Put to {p!r} was written to disk: {files[:3]}", rep))
+
+
 def run_c11(pid, tier, seed, rundir, model_run, res, count):
     rng = Rng(seed ^ 0xC11)
+    refused_put_under_write_limit(res, count)
     n = 260 * (14 if tier == "thorough" else 1)
     ops, impl, reps = [], [], []
     # baseline: paths the runtime itself touches in a session without path-bearing requests
